@@ -4,9 +4,11 @@
    Case vocabulary (shared with harness/src/t_misc.rs):
      (1 k addr)   GenericAddress::io_port_address::<T>(addr as u16).as_bytes(),  k = size_of::<T>()
      (2 k addr)   GenericAddress::mmio_address::<T>(addr).as_bytes()
-     (3 w)        w = 0 GAS::len()  1 Rsdp::len()  2 FACS::len()  3 TpmServer1_2::len() *)
+     (3 w)        w = 0 GAS::len()  1 Rsdp::len()  2 FACS::len()  3 TpmServer1_2::len()
+     (4 bytes)    aml::Name::new_field_name(text) serialised: the text's bytes, nothing else
+     (5 bytes)    rhct::IsaStringNode::new(text) serialised on its own (the node RHCT::add_isa_string builds) *)
 From Coq Require Import NArith List Bool.
-From ACPI Require Import Lib.Bytes Lib.Sx Lib.Machine Impl.Fields.
+From ACPI Require Import Lib.Bytes Lib.Sx Lib.Machine Impl.Fields Impl.Rhct.
 Import ListNotations.
 Open Scope N_scope.
 
@@ -36,5 +38,12 @@ Definition misc_case (md : mode) (c : sx) : list ev :=
   | SL [SA 3; SA 1] => [EvNum 36]                    (* size_of::<Rsdp>() *)
   | SL [SA 3; SA 2] => [EvNum 64]                    (* size_of::<FACS>() *)
   | SL [SA 3; SA 3] => [EvNum 100]                   (* size_of::<TpmServer1_2>() *)
+  | SL [SA 4; SL l] =>                               (* bytes.extend_from_slice(field_name.as_bytes()) *)
+      match sx_nums l with Some b => [EvBytes b] | None => [EvPanic] end
+  | SL [SA 5; SL l] =>
+      match sx_nums l with
+      | Some b => match isa_bytes b with Some e => [EvBytes e] | None => [EvPanic] end
+      | None => [EvPanic]
+      end
   | _ => [EvPanic]
   end.
